@@ -79,7 +79,11 @@ class Run:
         return [o for o in self.obligations if not o[1]]
 
     def found_input(self):
-        return any(v[2] for v in self.violations)
+        # a listed known finding is not the failing input of whatever else broke
+        known = load_known().get("known", [])
+        def is_known(sig):
+            return any(k.get("property") == self.pid and re.search(k["signature"], sig) for k in known)
+        return any(v[2] and not is_known(v[0]) for v in self.violations)
 
     def log(self, *a):
         print("[%s %5.1fs]" % (self.pid, time.time() - self.t0), *a, flush=True)
